@@ -220,6 +220,33 @@ def run(ctx):  # noqa: C901, PLR0912
                f'leading "0" as digits: -1.23456789012345678 and 0.000000000000000001 (both within 18 digits) lose digits',
                fi=tx, node=b)
 
+    # time zone offsets: the sign comes from the sign of the WHOLE offset; hours and minutes are written from the absolute
+    # value without a sign flag (a sign derived from the hour component is lost for -00:30)
+    tzf = repo.funcs.get('sdc11073.xml_types.isoduration._tz_to_string')
+    if tzf is not None:
+        from engine.deps import Deps
+        dtz = Deps(tzf.node)
+        rets = [n.value for n in walk_no_nested(tzf.node) if isinstance(n, ast.Return) and isinstance(n.value, ast.JoinedStr)
+                and len(n.value.values) >= 3]
+        ok = bool(rets)
+        why = ''
+        for r in rets:
+            flagged = [unparse(v) for v in r.values if isinstance(v, ast.FormattedValue) and v.format_spec is not None
+                       and '+' in unparse(v.format_spec)]
+            first = r.values[0]
+            sign_src = dtz.sources(first.value) if isinstance(first, ast.FormattedValue) else set()
+            sign_ok = isinstance(first, ast.FormattedValue) and first.format_spec is None and \
+                bool({'cmp:GtE', 'cmp:Lt', 'cmp:Gt', 'cmp:LtE'} & sign_src) and 'call:total_seconds' in sign_src
+            abs_ok = all('call:abs' in dtz.sources(v.value) for v in r.values[1:] if isinstance(v, ast.FormattedValue))
+            if flagged or not sign_ok or not abs_ok:
+                ok = False
+                why = f'sign flag on a component: {flagged}' if flagged else \
+                    ('the sign is not chosen by comparing the whole offset with 0' if not sign_ok else
+                     'hours / minutes are not computed from the absolute offset')
+        ctx.ob('C18.R5', 'time zone sign', ok,
+               '_tz_to_string writes the sign of the whole offset followed by hours and minutes of its absolute value' if ok else
+               f'_tz_to_string: {why} - an offset between -00:59 and -00:01 is written with the wrong sign', fi=tzf)
+
     # ------------------------------------------------------------------ R4
     bc = repo.cls(f'{DC}.BooleanConverter').methods.get('to_py')
     raises = any(isinstance(n, ast.Raise) for n in walk_no_nested(bc.node))
